@@ -107,10 +107,10 @@ class Hist:
         else:
             self.modelid[m0.split(':')[2]] = int(m0.split(':')[0])
             self.check_key(w.key(first[0].id), 'Wallet.create')
-        accounts = [0]
         other_wt = [x for x in ADDR_KIND if x != self.wt]
         other_net = [n for n in NETS if n != self.net and NETS[n] != NETS[self.net]]
         nets_used = [self.net]
+        accounts = [0]
         # structured prelude (every second history): explicit keys requested out of index order, then keys issued by the wallet
         if self.hseed % 2 == 1:
             hi, lo = rng.choice([(6, 3), (9, 2), (4, 1)])
@@ -125,6 +125,24 @@ class Hist:
                     self.record('new.%s.1' % c, [k], 'new_key(change=%d)' % chg)
                 ks = w.get_keys(number_of_keys=3, change=chg)
                 self.record('get.%s.3' % c, ks, 'get_keys(3, change=%d)' % chg)
+                # explicit paths that carry the ACCOUNT (no account_id argument), then keys issued for both accounts
+                purpose = {'legacy': 44, 'p2sh-segwit': 49, 'segwit': 84}[self.wt]
+                idx1 = rng.choice([2, 3, 5])
+                c1 = self.chain(self.wt, self.net, 1, chg)
+                if rng.random() < 0.5:
+                    k = w.key_for_path([1, chg, idx1])
+                    how = 'key_for_path([1, %d, %d])' % (chg, idx1)
+                else:
+                    pth = "m/%d'/%d'/1'/%d/%d" % (purpose, NETS[self.net], chg, idx1)
+                    k = w.key_for_path(pth)
+                    how = 'key_for_path(%r)' % pth
+                self.record('at.%s.%d' % (c1, idx1), [k], how)
+                if 1 not in accounts:
+                    accounts.append(1)
+                for acct_ in (0, 1, 1):
+                    kw_ = {'account_id': acct_} if acct_ else {}
+                    k = w.new_key(change=chg, **kw_)
+                    self.record('new.%s.1' % self.chain(self.wt, self.net, acct_, chg), [k], 'new_key(change=%d, %s)' % (chg, kw_))
             except WalletError as e:
                 self.problems.append(('refused', self.rep(real_op='prelude', error=str(e)[:100])))
         else:
